@@ -79,12 +79,17 @@ Definition brier_guard (fcst obs : larr) : option err :=
   else if negb (forallb is01 (lvalues obs)) then Some ValueError else None.
 Definition of_guard13 (g : option err) : result unit := match g with Some e => Err e | None => Ok tt end.
 
-Definition mse_m (fcst obs : larr) (rd pd : dimspec) (w : option larr) : result larr :=
+Definition mse_with (k : xv -> xv -> xv) (fcst obs : larr) (rd pd : dimspec) (w : option larr) : result larr :=
   do R <- gather (ldims fcst) (ldims obs) None rd pd DNone ;;
-  Ok (mean_score (lzip gen_c13_sqerr fcst obs) w R).
-Definition brier_score_m (fcst obs : larr) (rd pd : dimspec) (w : option larr) (check_args : bool) : result larr :=
+  Ok (mean_score (lzip k fcst obs) w R).
+Definition mse_m := mse_with gen_c13_sqerr.
+Definition brier_score_with (k : xv -> xv -> xv) (fcst obs : larr) (rd pd : dimspec) (w : option larr) (check_args : bool) : result larr :=
   do _ <- (if check_args then of_guard13 (brier_guard fcst obs) else Ok tt) ;;
-  mse_m fcst obs rd pd w.
+  mse_with k fcst obs rd pd w.
+Definition brier_score_m := brier_score_with gen_c13_sqerr.
+(* the proved specification of the kernel (coq/proofs/C13.v: sqerr_spec): (f - o)^2 on finite values *)
+Definition sqerr_spec_x (f o : xv) : xv :=
+  match f, o with XFin f, XFin o => XFin ((f - o) * (f - o)) | _, _ => xmul (xsub f o) (xsub f o) end.
 
 Definition entries_C13 : list entry := [
   (* [fcst; obs; 'ens; thresholds; rd; pd; weights; fair; 'op; 'threshold_dim; use_spec] *)
@@ -105,9 +110,9 @@ Definition entries_C13 : list entry := [
                  e_nat (member_event_count op t ms); e_nat (total_member_count ms)])
      | _ => None end));
   ("c13_brier_score", fun r => orun (
-     match r with RL [f; o; rd; pd; w; chk] =>
+     match r with RL [f; o; rd; pd; w; chk; sp] =>
        let? f := d_larr f in let? o := d_larr o in let? rd := d_dimspec rd in let? pd := d_dimspec pd in
-       let? w := d_opt d_larr w in let? chk := d_bool chk in
-       Some (e_result e_larr (brier_score_m f o rd pd w chk))
+       let? w := d_opt d_larr w in let? chk := d_bool chk in let? sp := d_bool sp in
+       Some (e_result e_larr (brier_score_with (if sp then sqerr_spec_x else gen_c13_sqerr) f o rd pd w chk))
      | _ => None end))
 ].
